@@ -144,6 +144,9 @@ def obligations(tier, seed):
     for dt in ("integer", "decimal", "boolean"):
         obs.append(dict(oid="K/plain-num/%s" % dt, family="k-plain-num", desc={"dt": dt}, sig=[("s", "s")],
                         pre=["len(s) <= %d" % (4 if tier == "quick" else 5)], budget=big))
+    for dt in ("integer", "decimal"):
+        obs.append(dict(oid="K/plain-num-any-text/%s" % dt, family="k-plain-num", desc={"dt": dt, "any_text": True}, sig=[("s", "s")],
+                        pre=["len(s) <= %d" % (3 if tier == "quick" else 4)], budget=big))
     return obs
 
 
